@@ -43,6 +43,7 @@ type FuncSpec struct {
 	FeedsOnly []*FeedsClause // "feeds_unchanged T into f, g": every field of T read here flows, unchanged, only into calls of f / g
 	ReturnsFresh bool        // "returns_fresh": result 0 is always an object allocated by this call (or by a callee with the same clause), never one that existed before
 	NoStoreThrough []string  // "no_store_through T [except f1, f2]": nothing reachable from here writes memory reached through a *T (shared, long-lived data)
+	MapOrderIndependent bool // "map_order_independent": no floating-point accumulation across the iterations of a range-over-map loop, here and in everything reachable in the package
 	DebugOnly []DebugOnlyClause // "debug_only T.f writes a, b": the flag only guards branches whose effects are confined to the named fields/variables
 	ControlOnly []string     // "control_only T.f, T.g": those fields only ever decide branches, here and in everything reachable in the package
 	Trusted   bool
@@ -181,7 +182,7 @@ func NewSpecFile() *SpecFile {
 }
 
 var clauseKeywords = map[string]bool{"requires": true, "ensures": true, "invariant": true, "decreases": true,
-	"assigns": true, "preserves": true, "guard": true, "order": true, "reads_fields": true, "control_only": true, "feeds_unchanged": true, "returns_fresh": true, "no_store_through": true, "loop": true, "may_panic": true, "dead_return": true, "state_axiom": true, "debug_only": true, "trusted": true, "pure": true, "abstract": true, "axiom": true,
+	"assigns": true, "preserves": true, "guard": true, "order": true, "reads_fields": true, "control_only": true, "feeds_unchanged": true, "returns_fresh": true, "no_store_through": true, "loop": true, "may_panic": true, "dead_return": true, "state_axiom": true, "debug_only": true, "map_order_independent": true, "trusted": true, "pure": true, "abstract": true, "axiom": true,
 	"func": true, "lemma": true, "noinline": true, "opaque": true, "flag": true, "let": true, "may_panic_at": true, "extends": true, "foreach_field": true, "ghost": true, "assert": true}
 
 // ParseSpecFile reads //@ lines from path and adds them to sf.
@@ -412,6 +413,9 @@ func (sf *SpecFile) ParseSpecFile(path string) error {
 				}
 				curLoop = nil
 				cur.FeedsOnly = append(cur.FeedsOnly, fc)
+			case "map_order_independent":
+				cur.MapOrderIndependent = true
+				curLoop = nil
 			case "debug_only":
 				txt := strings.TrimSpace(r.text)
 				fld, ws, ok := strings.Cut(txt, " writes ")
